@@ -1,5 +1,6 @@
 """Rules about rt::path (X1-X4 for C14, Z3 for C13, E1-E4 for C15, B1-B4 for C19)."""
 from .common import *
+from .common import _closure_arg
 
 P = "rt::path::Path"
 SCH = "rt::path::Schedule"
@@ -118,7 +119,33 @@ def X2(ctx):
     for w in prog.writers().get((PT, "*"), []):
         if w["fn"] in reach and w["fn"] != PT + "::explore":
             vals.add(canon(rv_expr(prog, w)).split("::")[-1].rstrip("{}"))
-    ok = {"Visited", "Active"} <= vals and PT + "::is_active" in calls and PT + "::is_pending" in calls and "Pending" not in vals
+    # which alternatives the two searches select: the predicate handed to `find` holds exactly for Active resp. Pending slots
+    # (is_active()/is_pending() calls, or the match written in place)
+    sel = set()
+    for k in reach:
+        for (b_, t_, c_) in prog.sites(prog.ident(k)):
+            if callee_path(t_) == "std::iter::Iterator::find":
+                ck_ = _closure_arg(arg_expr_call(prog.fns[k].body, t_))
+                if ck_ and ck_ in prog.fns:
+                    for (ce, cpol) in true_conditions(prog, ck_):
+                        if cpol and ce[0] == "call" and ce[1] in (PT + "::is_active", PT + "::is_pending"):
+                            sel.add(ce[1].split("::")[-1][3:].capitalize())
+                    cb_ = prog.fns[ck_].body
+                    for x_ in deep_sources(cb_, cb_.expr_of_local(0)):
+                        vt = variant_test(x_)
+                        if vt and vt[2]:
+                            sel.add(vt[1])
+                    for bb_ in blocks_assigning_ret(cb_, lambda e_: is_const_bool(e_, True)):
+                        for (ge, pol, v, sb) in guard_atoms(cb_, bb_):
+                            if ge[0] == "discr" and ge[2] == PT and not isinstance(v, tuple):
+                                nm = dict((x_, y_) for (x_, y_) in (ge[3] or [])).get(v)
+                                if nm:
+                                    sel.add(nm)
+    if PT + "::is_active" in calls:
+        sel.add("Active")
+    if PT + "::is_pending" in calls:
+        sel.add("Pending")
+    ok = {"Visited", "Active"} <= vals and {"Active", "Pending"} <= sel and "Pending" not in vals
     if ok:
         ctx.ok("X2", "step:Schedule", "Active -> Visited, then first Pending -> Active", [fn.loc()])
     else:
@@ -393,8 +420,35 @@ def E1(ctx):
     # explore is applied to the requested thread when it is enabled, to all otherwise
     one = [b for b in ex if (body.local_name(2) or "thread_id") in canon(arg_expr(body, body.term(b), 0))]
     allb = [b for b in ex if b not in one]
-    g_one = one and all(unreachable_if(body, b, assume_scenario(prog, {PT + "::is_disabled": True})) for b in one)
-    g_all = allb and all(unreachable_if(body, b, assume_scenario(prog, {PT + "::is_disabled": False})) for b in allb)
+    def disabled(truth):
+        """the racing thread's slot is (not) Thread::Disabled - tested through is_disabled()/is_enabled() or by matching the slot"""
+        base = assume_scenario(prog, {PT + "::is_disabled": truth, PT + "::is_enabled": not truth})
+
+        def a(body_, b_, t_, e):
+            r = base(body_, b_, t_, e)
+            if r is not None:
+                return r
+            pol = True
+            while e[0] == "unop" and e[1] == "Not":
+                e = e[2]
+                pol = not pol
+            vt = variant_test(e)
+            if vt and vt[0][0] == "index" and vt[1] == "Disabled":
+                return switch_targets_for(t_, ((truth == vt[2]) == pol))
+            if e[0] == "discr" and e[2] == PT and strip(e[1])[0] == "index":
+                names = dict((n_, v_) for (v_, n_) in (e[3] or []))
+                if not names and PT in prog.adts:
+                    names = dict((v_["name"], v_.get("discr", i_)) for i_, v_ in enumerate(prog.adts[PT]["variants"]))
+                d = names.get("Disabled")
+                hit = [tb for (v_, tb) in t_["targets"] if v_ == d]
+                if truth:
+                    return set(hit) if hit else {t_["otherwise"]}
+                rest = {tb for (v_, tb) in t_["targets"] if v_ != d} | {t_["otherwise"]}
+                return rest - set(hit) if hit else rest
+            return None
+        return a
+    g_one = one and all(unreachable_if(body, b, disabled(True)) for b in one)
+    g_all = allb and all(unreachable_if(body, b, disabled(False)) for b in allb)
     if g_one and g_all:
         ctx.ok("E1", fk + ":target", "arms the racing thread if enabled there, otherwise every thread", [site_str(prog, fk, one[0])])
     else:
